@@ -247,13 +247,20 @@ func (o *Object) Fields() []Field {
 		}
 		return out
 	}
+	per := jsonPer[o.Kind]
+	arr, general := o.doc[per.array].([]interface{})
+	general = general && len(arr) > 0
 	for _, n := range jsonTop[o.Kind] {
+		if general && contains(per.names, n) {
+			// General syntax (RFC 7515 §7.2.1, RFC 7516 §7.2.1): per-signature / per-recipient members live in
+			// the array; a top-level member of that name is not part of the syntax (see StrayMembers).
+			continue
+		}
 		if _, ok := o.doc[n].(string); ok {
 			out = append(out, Field{n, -1})
 		}
 	}
-	per := jsonPer[o.Kind]
-	if arr, ok := o.doc[per.array].([]interface{}); ok {
+	if general {
 		for i, e := range arr {
 			if m, ok := e.(map[string]interface{}); ok {
 				for _, n := range per.names {
@@ -262,6 +269,35 @@ func (o *Object) Fields() []Field {
 					}
 				}
 			}
+		}
+	}
+	return out
+}
+
+func contains(l []string, s string) bool {
+	for _, x := range l {
+		if x == s {
+			return true
+		}
+	}
+	return false
+}
+
+// StrayMembers lists top-level members that the general JSON syntax does not define but the
+// document carries next to its "signatures"/"recipients" array (e.g. a top-level "encrypted_key").
+func (o *Object) StrayMembers() []string {
+	if o.Compact {
+		return nil
+	}
+	per := jsonPer[o.Kind]
+	arr, ok := o.doc[per.array].([]interface{})
+	if !ok || len(arr) == 0 {
+		return nil
+	}
+	var out []string
+	for _, n := range per.names {
+		if _, ok := o.doc[n]; ok {
+			out = append(out, n)
 		}
 	}
 	return out
